@@ -122,8 +122,9 @@ def _value_of(expr: Expr) -> Number | None:
         # Raised, with various messages, whenever the expression has no numerical value yet
         # (free symbols, unevaluated sums or products with symbolic limits, ...).
         return None
-    if value is sympy.nan:
-        # e.g. a product of zeros over a range whose length is still symbolic: no numerical value yet either
+    if value is sympy.nan or not value.is_real:
+        # nan (e.g. a product of zeros over a range whose length is still symbolic), or a complex or infinite value
+        # (sqrt(N - 5) at N = 1, log(x, 1)): not a number that can be mapped to an int or a float
         return None
 
     # Map to integer if possible
